@@ -8,7 +8,10 @@
 //     foreign / unknown frames injected with the real crossnode.WriteFrame on the same connection;
 //   - dec / rt: the real ReadFrameFromReader / WriteFrameToWriter with recover() and allocation
 //     accounting;
-//   - fwd: two real session.runBidirectionalForward loops joined by a FrameStream pair.
+//   - fwd: two real session.runBidirectionalForward loops joined by a FrameStream pair;
+//   - bidi (bidi.go): schedules of spec/CrossFrameForward.tla (both copy loops of a tunnel, and a second tunnel, as
+//     processes with their copy buffers) on one real runBidirectionalForward per tunnel between a gate-controlled
+//     or TCP local endpoint and a real FrameStream.
 //
 // The recorded observations are judged by spec/CrossFrameTrace.tla.
 package main
@@ -18,6 +21,8 @@ import (
 	"fmt"
 	"hash/fnv"
 	"strconv"
+	"strings"
+	"sync"
 	"time"
 
 	corelog "tunnox-core/internal/core/log"
@@ -45,6 +50,8 @@ type genLine struct {
 	Nw     int             `json:"nw"`
 	Pl     string          `json:"pl"`
 	Styles []string        `json:"styles"`
+	Nt     int             `json:"nt"`
+	Steps  []bidiStep      `json:"steps"`
 }
 
 // keepPermille: share of the exhaustively enumerated scripts outside the core set that is driven
@@ -156,6 +163,41 @@ func expand(env *fw.Env, src string, raw json.RawMessage) []json.RawMessage {
 			out = append(out, fw.MustJSON(streamBeh{Kind: "stream", Rsz: []string{"one", "small", "big"}[(int(h>>14)+v)%3], Idk: "long", Start: "live",
 				Salt: salt + int64(v), Script: []op{{Op: "write", C: pc, Exp: "ok", Rep: rep}, {Op: end}}, Par: g.Nw, ParFrames: frames, ParPl: g.Pl}))
 		}
+	case "bidi":
+		// schedules of spec/CrossFrameForward.tla: every one-tunnel schedule, a seeded share of the
+		// two-tunnel ones; each with both kinds of local endpoint, with and without traffic counters
+		overlap := false // a Read of one copy loop completes while another loop's Write is in progress
+		infl := map[string]bool{}
+		for _, st := range g.Steps {
+			k := fmt.Sprint(st.T, st.D)
+			switch st.A {
+			case "R":
+				for o, v := range infl {
+					overlap = overlap || (v && o != k)
+				}
+				infl[k] = true
+			case "W":
+				infl[k] = false
+			}
+		}
+		keep := uint64(120)
+		if env.Tier == "thorough" {
+			keep = 1000
+			if strings.HasSuffix(src, "C=2") {
+				keep = 150
+			}
+		}
+		if overlap {
+			keep *= 2
+		}
+		if g.Nt > 1 && h%1000 >= keep {
+			return nil
+		}
+		for v, lk := range []string{"gate", "tcp"} {
+			for w, cnt := range []string{"off", "on"} {
+				out = append(out, fw.MustJSON(bidiBeh{Kind: "bidi", Nt: g.Nt, Steps: g.Steps, Lk: lk, Cnt: cnt, Mode: "sched", Salt: salt + int64(2*v+w)}))
+			}
+		}
 	case "pool":
 		for v, c := range []string{"one", "Mp1"} {
 			out = append(out, fw.MustJSON(poolBeh{Kind: "pool", Styles: g.Styles, C: c, Salt: salt + int64(v)}))
@@ -207,6 +249,14 @@ func drive(env *fw.Env, b fw.Behaviour) *fw.Trace {
 		quiet.RLock()
 		defer quiet.RUnlock()
 		return driveListener(env, &lb)
+	case "bidi":
+		var bb bidiBeh
+		if err := json.Unmarshal(b.Data, &bb); err != nil {
+			return &fw.Trace{Status: fw.DriverError, Note: err.Error()}
+		}
+		quiet.RLock()
+		defer quiet.RUnlock()
+		return driveBidi(env, &bb)
 	case "fwd":
 		var fb fwdBeh
 		if err := json.Unmarshal(b.Data, &fb); err != nil {
@@ -338,6 +388,32 @@ func selfTest(env *fw.Env, accepted []*fw.Trace) []*fw.Trace {
 			c = next(t)
 			c.Events[i]["eq"] = false
 			out = append(out, c)
+		case "bidi":
+			i := find(t, "BD", func(e fw.Event) bool { return e["sent"].(int) > 0 })
+			if i < 0 || done["bidi"] >= 3 {
+				continue
+			}
+			done["bidi"]++
+			c := next(t) // a byte is missing at the end of a direction
+			c.Events[i]["len"] = c.Events[i]["len"].(int) - 1
+			out = append(out, c)
+			c = next(t) // the bytes that arrived are not the bytes that were sent
+			c.Events[i]["eq"] = false
+			out = append(out, c)
+			c = next(t) // no end-of-stream behind them
+			c.Events[i]["eof"] = false
+			out = append(out, c)
+			c = next(t) // the forwarder never returned
+			c.Events[i]["hung"] = true
+			out = append(out, c)
+			if k := find(t, "BW", nil); k >= 0 {
+				c = next(t) // the slice changed while the sink's Write was in progress
+				c.Events[k]["eq"], c.Events[k]["stable"], c.Events[k]["by"] = false, false, "otherdir"
+				out = append(out, c)
+				c = next(t) // a sink was handed bytes nobody produced
+				c.Events[k]["off"] = c.Events[k]["off"].(int) + 100000
+				out = append(out, c)
+			}
 		case "fwd":
 			i := find(t, "FD", func(e fw.Event) bool { return e["sent"].(int) > 0 })
 			if i < 0 || done["fwd"] >= 2 {
@@ -358,6 +434,52 @@ func selfTest(env *fw.Env, accepted []*fw.Trace) []*fw.Trace {
 	return out
 }
 
+// started together with the model jobs, collected after the drive
+var showResult chan error
+
+// showDeviations: under each named deviation of spec/CrossFrameForward.tla TLC must exhibit the violation of the
+// clauses it breaks (CrossFrameForward_show_*.cfg) - the model really contains the mechanism, the invariants are
+// not vacuous. Quick tier: the seeded deviation and one clause per neighbour; thorough: every clause.
+func showDeviations(env *fw.Env) error {
+	type show struct{ cfg, inv string }
+	shows := []show{{"shared", "Unchanged"}, {"shared", "BufferOwned"}, {"firstdone", "PoolSound"}, {"earlyput", "Unchanged"}, {"global", "Unchanged"}}
+	if env.Tier == "thorough" {
+		shows = nil
+		for _, c := range []string{"shared", "firstdone", "earlyput", "global"} {
+			for _, inv := range []string{"Unchanged", "BufferOwned", "NoClobber"} {
+				shows = append(shows, show{c, inv})
+			}
+		}
+		shows = append(shows, show{"firstdone", "PoolSound"}, show{"earlyput", "PoolSound"})
+	}
+	errs := make([]error, len(shows))
+	var wg sync.WaitGroup
+	sem := make(chan struct{}, 3)
+	for i, sh := range shows {
+		wg.Add(1)
+		go func(i int, sh show) {
+			defer wg.Done()
+			sem <- struct{}{}
+			defer func() { <-sem }()
+			r, err := fw.RunTLC(fw.TLCJob{Name: "show:" + sh.cfg + ":" + sh.inv, Module: "CrossFrameForward", Cfg: "CrossFrameForward_show_" + sh.cfg + ".cfg",
+				Workers: 1, Consts: map[string]string{"INV": sh.inv}})
+			if err != nil {
+				errs[i] = err
+			} else if r.OK || !strings.Contains(r.Violation, sh.inv) {
+				errs[i] = fmt.Errorf("deviation cfg CrossFrameForward_show_%s.cfg no longer exhibits %s violated (ok=%v violation=%q)", sh.cfg, sh.inv, r.OK, r.Violation)
+			}
+		}(i, sh)
+	}
+	wg.Wait()
+	for _, err := range errs {
+		if err != nil {
+			return err
+		}
+	}
+	fmt.Printf("[model] %d named-deviation runs of spec/CrossFrameForward.tla: TLC exhibits the violated clause for each (expected)\n", len(shows))
+	return nil
+}
+
 func main() {
 	corelog.SetDefault(corelog.NewNopLogger())
 	fw.Main(&fw.Property{
@@ -372,8 +494,16 @@ func main() {
 			// Larger bounds pass too (<=3 writes / seven kinds: 10M states; <=4 writes: >20M) but do not
 			// fit the thorough budget on a loaded machine; scripts with 4 writes come from the -simulate job.
 			inj5, inj7 := `{"fd", "fds", "fen", "fes", "unk"}`, `{"fd", "fdn", "fds", "fe", "fen", "fes", "unk"}`
+			showResult = make(chan error, 1)
+			go func() { showResult <- showDeviations(env) }()
+			// the bidirectional forwarder with its copy buffers as state, the code as it is: two tunnels with <=2 chunks
+			// per direction (60k states up to buffer symmetry) / thorough: <=3 chunks (0.2M states)
+			fwdMC := func(ch string) fw.TLCJob {
+				return fw.TLCJob{Name: "mc:CrossFrameForward_mc.cfg(T=2,C=" + ch + ")", Module: "CrossFrameForward", Cfg: "CrossFrameForward_mc.cfg", Workers: 2,
+					Consts: map[string]string{"TUN": "{1, 2}", "CH": ch, "EMIT": "FALSE"}, Timeout: 14 * time.Minute}
+			}
 			jobs := []fw.TLCJob{{Name: "mc:CrossFrame_mc.cfg(W=2)", Module: "CrossFrame", Cfg: "CrossFrame_mc.cfg",
-				Consts: map[string]string{"MAXW": "2", "INJ": inj5}}}
+				Consts: map[string]string{"MAXW": "2", "INJ": inj5}}, fwdMC("2")}
 			if env.Tier == "thorough" {
 				jobs = []fw.TLCJob{
 					{Name: "mc:CrossFrame_mc.cfg(W=3)", Module: "CrossFrame", Cfg: "CrossFrame_mc.cfg",
@@ -382,6 +512,7 @@ func main() {
 						Consts: map[string]string{"MAXW": "2", "INJ": inj7}, Timeout: 14 * time.Minute},
 					{Name: "mc:CrossFrame_strict.cfg(W=2)", Module: "CrossFrame", Cfg: "CrossFrame_strict.cfg", Consts: map[string]string{"MAXW": "2"}, Timeout: 14 * time.Minute},
 					{Name: "mc:CrossFramePool_fixed.cfg", Module: "CrossFramePool", Cfg: "CrossFramePool_fixed.cfg", Workers: 1},
+					fwdMC("3"),
 				}
 			}
 			return jobs
@@ -401,10 +532,40 @@ func main() {
 				Consts: map[string]string{"EMIT": "TRUE"}}
 			pl := fw.TLCJob{Name: "mc+gen:CrossFramePool", Module: "CrossFramePool", Cfg: "CrossFramePool.cfg", Workers: 1,
 				Consts: map[string]string{"EMIT": "TRUE", "REJ": "FALSE"}} // FALSE: IsHealthy as coded before fix C10-1; the invariants checked hold for both
-			if env.Tier == "thorough" {
-				return []fw.TLCJob{gen(2, 2), gen(3, 1), sim(6000), lst, pl}
+			// schedules of the bidirectional forwarder: one tunnel with <=3 chunks per direction, two tunnels with one
+			bidi := func(tun, ch string) fw.TLCJob {
+				return fw.TLCJob{Name: "gen:bidi:T=" + tun + ",C=" + ch, Module: "CrossFrameForward", Cfg: "CrossFrameForward_gen.cfg", Workers: 1,
+					Consts: map[string]string{"TUN": tun, "CH": ch, "EMIT": "TRUE"}}
 			}
-			return []fw.TLCJob{gen(2, 1), sim(400), lst, pl}
+			if env.Tier == "thorough" {
+				return []fw.TLCJob{gen(2, 2), gen(3, 1), sim(6000), lst, pl, bidi("{1}", "3"), bidi("{1, 2}", "1"), bidi("{1, 2}", "2")}
+			}
+			return []fw.TLCJob{gen(2, 1), sim(400), lst, pl, bidi("{1}", "3"), bidi("{1, 2}", "1")}
+		},
+		ExtraBeh: func(env *fw.Env) []json.RawMessage {
+			// free-running: both directions of every tunnel pump chunks at the same time, no schedule
+			var out []json.RawMessage
+			reps, n := 2, 60
+			if env.Tier == "thorough" {
+				reps, n = 6, 200
+			}
+			for rep := 0; rep < reps; rep++ {
+				for nt := 1; nt <= 2; nt++ {
+					for _, lk := range []string{"gate", "tcp"} {
+						for _, cnt := range []string{"off", "on"} {
+							out = append(out, fw.MustJSON(bidiBeh{Kind: "bidi", Nt: nt, Lk: lk, Cnt: cnt, Mode: "free", N: n,
+								Salt: int64(h64(env.Seed, fmt.Sprint("free", rep, nt, lk, cnt)) >> 1)}))
+						}
+					}
+				}
+			}
+			return out
+		},
+		PostDrive: func(env *fw.Env, traces []*fw.Trace) error {
+			if showResult == nil { // replay: the model jobs were not run
+				return nil
+			}
+			return <-showResult
 		},
 		Expand:      expand,
 		Drive:       drive,
@@ -414,12 +575,15 @@ func main() {
 		SelfTest:    selfTest,
 		NonTrivial:  func(t *fw.Trace) bool { return len(t.Events) > 2 || kindOf(t) == "dec" || kindOf(t) == "rt" },
 		Rule: "stream: every writer script up to the generation bounds in the core set (<=1 write, <=1 injected frame) plus a seeded share of the larger enumerated scripts and random deep scripts (<=4 writes, <=2 injected frames), each with a caller buffer class; " +
-			"dec/rt/fwd: every class once per chunking; non-trivial = realised trace with a delivery/decoder observation",
+			"dec/rt/fwd: every class once per chunking; bidi: one schedule per (control state, step) of spec/CrossFrameForward.tla - all one-tunnel schedules (<=3 chunks per direction), a seeded share of the two-tunnel ones - " +
+			"each with a gated in-memory and a bare TCP local endpoint, with and without traffic counters, plus free-running two-way pumps; non-trivial = realised trace with a delivery/decoder observation",
 		Assumptions: []string{
 			"model frame limit MAX=3 stands for crossnode.MaxFrameSize; size classes are mapped to {0,1,MAX-1,MAX,MAX+1,2*MAX+1} real bytes",
 			"a reader that makes no progress for 5 s after the writer script finished is recorded as hung",
 			"allocation is measured as the minimum runtime.MemStats.TotalAlloc delta of three decoder calls while no other behaviour runs",
 			"frames are injected between Write calls, not between the frames of one Write (equivalent on the wire)",
+			"bidi: a sink may look at the slice it was handed until its Write returns (io.Writer contract); the gated sinks look at it on entry and again on return; a bare *net.TCPConn sink cannot be held, its direction is judged on what the client received",
+			"bidi: a forwarder that has not returned 10 s after both of its sources ended is recorded as hung; a schedule step that does not complete within 10 s ends the schedule (diverged run, still judged on what was delivered)",
 		},
 		TrustedBase: []string{"TLC", "spec/CrossFrameTrace.tla as the reading of the statement", "byte classification and content comparison in drivers/c10",
 			"go:linkname binding to session.runBidirectionalForward"},
